@@ -13,6 +13,7 @@ import z3
 from pyvc import sym, instrument, vc as vcm, loops
 from pyvc.arr import SymArray
 from pyvc.harness import Unit
+from pyvc import harness as _h
 from pyvc.sym import SB, SC, SI, SR, check, assume, explore
 from checks import c13, c20
 
@@ -200,6 +201,13 @@ def _initial_frame(m=None):
     return r
 
 
+
+def _bounded_quick():
+    b1, n1 = native_malloc()
+    b2, n2 = native_hashseed((1, 2, 3))
+    return b1 + b2, n1 + n2
+
+
 def units():
     us = [Unit("get_A_induced_numba", c13.M + ":get_A_induced_numba", run_kernel_screening, props=["C09"], timeout=600),
           Unit("_biot_savart_2d_z", c20.EM + ":_biot_savart_2d_z", _k(c20.run_bs_z), props=["C09"], timeout=600),
@@ -209,6 +217,7 @@ def units():
     us.append(Unit("TDGLSolver.solve[initial frame]", "tdgl.solver.solver:TDGLSolver.solve", _initial_frame, props=["C09", "C11"], timeout=300))
     us.append(Unit("iteration order", "tdgl (numerical core, syntactic)", run_iteration_order, props=["C09"], timeout=300))
     us.append(Unit("validate_terminal_currents[rng]", "tdgl.solver.solver:validate_terminal_currents", run_rng, props=["C09"], timeout=300))
+    us.append(_h.bounded_unit("same bits in fresh processes [bounded]", "tdgl.solve in fresh processes", "C09", _bounded_quick, "recorded_bytes_independent_of_heap_state_and_hash_seed[6 processes]", timeout=900))
     return us
 
 
